@@ -90,6 +90,10 @@ def main(argv):
         resource.setrlimit(resource.RLIMIT_CORE, (0, 0))
     except Exception:
         pass
+    common.put_repo_first_on_path()
+    import exactly_lib
+    if not os.path.abspath(exactly_lib.__file__).startswith(os.path.abspath(common.REPO_SRC) + os.sep):
+        raise RuntimeError('exactly_lib imported from %s, not from %s' % (exactly_lib.__file__, common.REPO_SRC))
     scratch = tempfile.mkdtemp(prefix='vf-%s-%d-' % (prop, shard), dir=common.SCRATCH_BASE)
     os.chdir(scratch)
     t0 = time.time()
